@@ -44,10 +44,14 @@ class SqliteImpl(SqlImpl):
                 else_=cls.cast_compiled(cast, compiled_val),
             )
 
+        elif val_type in (Date(), Datetime()) and cast.target_type == val_type:
+            # SQLite stores dates as ISO strings, a CAST to DATE / DATETIME would produce a number
+            return compiled_val
         elif val_type == Datetime() and cast.target_type == Date():
             return sqa.type_coerce(sqa.func.date(compiled_val), sqa.Date())
         elif val_type == Date() and cast.target_type == Datetime():
-            return sqa.type_coerce(sqa.func.datetime(compiled_val), sqa.DateTime())
+            # same text format as stored datetimes (microsecond resolution)
+            return sqa.type_coerce(sqa.func.strftime("%Y-%m-%d %H:%M:%f000", compiled_val), sqa.DateTime())
 
         elif val_type.is_float() and cast.target_type == String():
             return sqa.case(
